@@ -123,6 +123,10 @@ func c03Enumerate(tier string, yield func(any)) {
 	for k := 0; k < 8; k++ {
 		yield(&c03Case{Kind: "fresh", First: k})
 	}
+	// separate processes started right after one another (a script looping over directories)
+	for k := 0; k < 4; k++ {
+		yield(&c03Case{Kind: "fresh-processes", First: k})
+	}
 }
 
 func c03CheckParsed(x *engine.Ctx, subj string, replay *c03Case) {
@@ -288,6 +292,47 @@ func c03Exec(x *engine.Ctx, cc any) {
 		}
 		reportOwned(x, "C03", diffs)
 		x.Outcome("ids")
+	case "fresh-processes":
+		// three runs of the built binary back to back on three copies of one directory: at least two of
+		// them start within the same second, and all drawn serials are pairwise distinct
+		d := &Dir{}
+		for i := 0; i < 2; i++ {
+			cfg := &refcfg.CertCfg{Path: fmt.Sprintf("p%d.yaml", i), Subject: fmt.Sprintf("CN=p%d", i), KeyAlg: "P-224"}
+			if i > 0 {
+				cfg.Issuer = "p0"
+			}
+			d.Certs = append(d.Certs, cfg)
+		}
+		base := simfs.New(simfs.TickPerWrite)
+		d.Render(base)
+		seen := map[string]string{}
+		for run := 0; run < 3; run++ {
+			w := base.Clone()
+			res, err := drive.RunCLI(w, drive.Default, "")
+			if err != nil {
+				x.Cap("cli binary could not be run: " + err.Error())
+				return
+			}
+			x.TraceValidated(1)
+			if res.Exit != 0 {
+				x.Violation("C03/run-failed fresh-processes", fmt.Sprintf("exit %d %s", res.Exit, short(res.Stdout, 300)))
+				return
+			}
+			for _, cfg := range d.Certs {
+				a := ReadArtifact(w, cfg.Path)
+				if a.Cert == nil {
+					x.Violation("C03/no-certificate", fmt.Sprintf("process %d: %s", run, cfg.Path))
+					return
+				}
+				k := a.Cert.Serial.String()
+				if prev, dup := seen[k]; dup {
+					x.Violation("C03/serial/not-fresh-across-processes", fmt.Sprintf("serial %s drawn by %s and again by process %d for %s", k, prev, run, cfg.Path))
+				}
+				seen[k] = fmt.Sprintf("process %d for %s", run, cfg.Path)
+			}
+		}
+		x.Nontrivial(fmt.Sprintf("fresh-processes %d", c.First))
+		x.Outcome(fmt.Sprintf("fresh across processes serials=%d", len(seen)))
 	case "fresh":
 		// unconfigured serials are pairwise distinct over all certificates of a run and of a second run
 		d := &Dir{}
@@ -333,7 +378,7 @@ func init() {
 	register(&engine.Check{
 		ID:          "C03",
 		Level:       "exploration",
-		Rule:        "subject strings over 11 keys (9 short names, 2 dotted OIDs) x 9 values (ASCII, inner double space, punctuation, non-ASCII, 64 and 200 characters, a value in double quotes, single quotes and brackets): every sequence of length 1..3 (4.6e5, with 4 separator spellings) through config.ParseRDNSequence vs. the documented grammar; every sequence of length 1..2 and every cyclic window of length 3..8 with rotating values through whole certificate generation without profile, with a profile listing the subject's attributes, and the same with allowOther (quick thins the profile variants of length-2 subjects to a third); 8 serials x 6 x 6 unique-id settings x {no profile, extension-only profile, subject-constraining profile} x {self-signed, issued with own key, issued for a request-only artifact}; 8 two-run forests for serial freshness. Oracle: one single-valued RDN per pair in reversed order, documented OID, text unchanged, UTF8String or (in repertoire) PrintableString, identical with and without profile; configured serial/unique ids bit for bit. non-trivial = distinct case that reached the comparison",
+		Rule:        "subject strings over 11 keys (9 short names, 2 dotted OIDs) x 9 values (ASCII, inner double space, punctuation, non-ASCII, 64 and 200 characters, a value in double quotes, single quotes and brackets): every sequence of length 1..3 (4.6e5, with 4 separator spellings) through config.ParseRDNSequence vs. the documented grammar; every sequence of length 1..2 and every cyclic window of length 3..8 with rotating values through whole certificate generation without profile, with a profile listing the subject's attributes, and the same with allowOther (quick thins the profile variants of length-2 subjects to a third); 8 serials x 6 x 6 unique-id settings x {no profile, extension-only profile, subject-constraining profile} x {self-signed, issued with own key, issued for a request-only artifact}; 8 two-run forests for serial freshness, and 4 times three back-to-back processes of the built binary (serials distinct across processes started within one second). Oracle: one single-valued RDN per pair in reversed order, documented OID, text unchanged, UTF8String or (in repertoire) PrintableString, identical with and without profile; configured serial/unique ids bit for bit. non-trivial = distinct case that reached the comparison",
 		Bound:       map[string]string{"subject length": "parser 1..3 exhaustive (thorough 1..4: 3.5e7), generation 1..2 exhaustive (thorough: length 3 over 11 keys x 2 values), 3..8 windows", "values": "7"},
 		Assumptions: []string{"values containing , = \\ or a leading # are outside the documented grammar that reaches the parser", "fresh-serial collisions have probability about 2^-150"},
 		Budget:      budgets(quickBudget, thoroughBudget),
